@@ -17,6 +17,10 @@
  */
 #include "XalanUTF16Transcoder.hpp"
 
+
+
+#include <cstring>
+
 #include <xalanc/Include/XalanMemMgrAutoPtr.hpp>
 
 
@@ -116,7 +120,14 @@ XalanUTF16Transcoder::transcode(
         }
         else
         {
-            theTarget[theTargetPosition++] = *reinterpret_cast<const XalanDOMChar*>(theSourceData + theSourceCount++);
+            // The source bytes may not be aligned...
+            XalanDOMChar    theChar;
+
+            std::memcpy(&theChar, theSourceData + theSourceEaten, sizeof(theChar));
+
+            theTarget[theTargetPosition++] = theChar;
+
+            theSourceEaten += 2;
 
             *theCharSizes++ = 2;
         }
